@@ -160,7 +160,7 @@ PROPS = {
                 level_text='bounds_history / C04_history_configured (EscProofs/P/Bounds.lean): along every history from NewController (distinct group names), the max_nodes a scan clamps against IS the configured one - no scan and no cloud answer moves it - or, under auto-discovery, the maximum of the cloud description the scan starts from, which runOnce_fresh shows to be an answer of that same scan. C04_bound / C04_history: every SetDesiredCapacity value and every fleet request, on top of the desired size at that moment, is <= min(max_nodes, cloud max), for all inputs and histories; '
                            'C04_clamp_exact: the clamp lands exactly on the bound and yields no request without headroom. Tie: hist correspondence on resize calls (arguments) + monitor; awsops/fleetops sequences on one provider (removals whose termination AWS rejects, then a request up to the maximum the provider reports) with the provider\'s cached desired size compared and every request checked against the cloud maximum counted from the real desired size.',
                 level_note=LEVEL_NOTE),
-    'C05': dict(level='proof', module='EscProofs.P.Rne',
+    'C05': dict(level='proof', module='EscProofs.P.GenArithUse',
                 streams=dict(quick=[('arith', ['-n', 40000, '-dir', '@ROOT/corpus/C05']), ('hist', ['-n', 300, '-scans', 10, '-focus', 'up']), ('hist', ['-n', 150, '-scans', 8, '-focus', 'rotate']), ('fleetops', ['-n', 96]), ('hist', ['-n', 8, '-scans', 6, '-focus', 'fleet'])],
                              thorough=[('arith', ['-n', 3000000, '-dir', '@ROOT/corpus/C05']), ('hist', ['-n', 15000, '-scans', 12, '-focus', 'up']), ('hist', ['-n', 5000, '-scans', 10, '-focus', 'rotate']), ('fleetops', ['-n', 1600]), ('hist', ['-n', 200, '-scans', 8, '-focus', 'fleet'])],
                              search=[('arith', ['-n', 300000, '-dir', '@ROOT/corpus/C05']), ('hist', ['-n', 1500, '-scans', 12, '-focus', 'up']), ('hist', ['-n', 800, '-scans', 10, '-focus', 'rotate']), ('fleetops', ['-n', 300])]),
@@ -169,7 +169,7 @@ PROPS = {
                           'Esc.P.C05_from_zero_no_cache', 'Esc.P.C05_float_short_witness',
                           'Esc.P.C05_float_error', 'Esc.P.C05_float_within_one', 'Esc.P.C05_from_zero_float_error', 'Esc.P.C05_from_zero_within_one',
                           'Esc.P.StdModel_rne64', 'Esc.P.C05_rne64_within_one', 'Esc.P.C05_float_sufficient', 'Esc.P.C05_float_full_in_region',
-                          'Esc.P.C05_rne64_full_in_region'],
+                          'Esc.P.C05_rne64_full_in_region', 'Esc.P.gen_calcScaleUpDelta_vals', 'Esc.P.gen_calcScaleUpDelta_sentinel', 'Esc.P.gen_calcPercentUsage_eq', 'Esc.P.gen_arith_translation_complete', 'Esc.P.C05_source_in_region'],
                 technique='Lean 4 theorems: over exact rationals the formula is the minimal sufficient node count (and the from-zero variants); over any rounding function satisfying the standard model of floating-point arithmetic the float pipeline is within (n/T)(8uP+4uT) of the exact value, hence within one node; the model\'s binary64 round-to-nearest-even satisfies that model with u=2^-53 (proved) and is tied to Go bit for bit by the differential correspondence; exact-rational monitor of every observed delta; partial',
                 level_text='PARTIAL. Exact layer proved: n + ceil(n*((pct-T)/T)) = ceil(100R/(sT)) for n>0 equal nodes, which is sufficient and minimal (C05_exact_formula, C05_ceil_sufficient_minimal); the delta is the max over CPU and memory; from zero: ceil(100R/(cT)) with the cached size, '
                            'exactly 1 without cache; composition untainted + requested = delta unless clamped (C07_remainder). Float layer: the model executes binary64 round-to-nearest-even on rationals (rne64) and is compared bit for bit (Float64bits) with Go on every case; '
@@ -182,7 +182,7 @@ PROPS = {
                 aspects=['hist:taintadds', 'hist:untaints', 'hist:resize', 'hist:delta'], monitors=['C06'],
                 theorems=['Esc.P.C06_bands', 'Esc.P.C06_triggers', 'Esc.P.C06_triggers_off', 'Esc.P.C06_taint_rate', 'Esc.P.C06_idle_band',
                           'Esc.P.C06_up_never_taints', 'Esc.P.C06_down_never_adds', 'Esc.P.taintLoop_count_all_ok',
-                          'Esc.P.C06_starve_iff', 'Esc.P.C06_starve_scales_up', 'Esc.P.C06_float_bands', 'Esc.P.C06_rne64_bands', 'Esc.P.C06_decision_exact', 'Esc.P.C06_up_never_removes', 'Esc.P.C06_up_shape', 'Esc.P.C06_taint_walks_on'],
+                          'Esc.P.C06_starve_iff', 'Esc.P.C06_starve_scales_up', 'Esc.P.C06_float_bands', 'Esc.P.C06_rne64_bands', 'Esc.P.C06_decision_exact', 'Esc.P.C06_up_never_removes', 'Esc.P.C06_up_shape', 'Esc.P.C06_taint_walks_on', 'Esc.P.gen_calcPercentUsage_eq', 'Esc.P.gen_calcScaleUpDelta_vals'],
                 technique='Lean 4 theorem (band case analysis for any rounding function; exact taint count when no attempt fails; journal shape of the idle and scale-up branches) + differential correspondence at threshold neighbourhoods + exact-rational band oracle and documented-starve oracle as monitors',
                 level_text='C06_bands: the decision is -fast / -slow / 0 / scale-up formula according to where max(cpu%,mem%) (as computed) lies relative to the three thresholds (as converted), for every rounding function; C06_taint_rate: exactly min(rate, untainted - min) nodes are tainted when no attempt fails; '
                            'C06_idle_band: decision 0 yields only reaping; C06_up_never_taints; C06_triggers: starve / max-age only raise the decision to >= 1; C06_starve_iff: the starve trigger computed from the largest-pending / largest-available digests is exactly the documented condition (option on, some pending pod asks in CPU or memory for more than any untainted node has left, untainted < max_nodes), so C06_starve_scales_up: under that condition the decision is >= 1 in every band. C06_float_bands / C06_rne64_bands: for every rounding function obeying the standard model with u <= 2^-43 (binary64: 2^-53, proved for the executed rne64) the band decision is the one the EXACT utilisation max(100Rc/Cc, 100Rm/Cm) dictates whenever it is outside a relative neighbourhood of 2^-40 of a threshold; inside that neighbourhood either side is accepted (monitor likewise). '
@@ -312,7 +312,7 @@ PROPS = {
                 decisive={'podTotal': 'Esc.P.C13_totals: the model total is the sum over pods of max(sum containers, largest init) + overhead',
                           'capTotal': 'Esc.P.C13_capacity: the model capacity is the sum of allocatable over the given nodes'},
                 theorems=['Esc.P.C13_pod', 'Esc.P.C13_totals', 'Esc.P.C13_capacity', 'Esc.P.C13_perm_pods', 'Esc.P.C13_perm_nodes',
-                          'Esc.P.C13_nodeAvail_perm', 'Esc.P.largestPending_inv', 'Esc.P.C13_percent_exact', 'Esc.P.foldl_max_spec'],
+                          'Esc.P.C13_nodeAvail_perm', 'Esc.P.largestPending_inv', 'Esc.P.C13_percent_exact', 'Esc.P.foldl_max_spec', 'Esc.P.gen_calcPercentUsage_eq', 'Esc.P.gen_calcPercentUsage_sentinel_both'],
                 technique='Lean 4 theorem (closed forms of the folds; permutation invariance via commutative digests and List.Perm.foldl_eq\') + bit-exact differential correspondence of calculators and percentages + metamorphic permutation monitor',
                 level_text='C13_pod/C13_totals/C13_capacity: request = sum over pods of max(sum containers, largest init)+overhead per resource, capacity = sum of allocatable; C13_perm_*: totals, capacity and the starve-test inputs are '
                            'invariant under any permutation of pods and nodes; C13_percent_exact: 100*req/cap with exact arithmetic (float layer: bit-exact correspondence of the rne64 model with Go, see C05). '
